@@ -1,1 +1,2 @@
 import Oas3Model.Model.Naming
+import Oas3Model.Model.EventStream
